@@ -114,6 +114,16 @@ def work_lists(task):
     return acc
 
 
+def work_groups(task):
+    import a5
+    lists, limit, targets = task
+    acc = common.Acc()
+    for paths in lists:
+        for t in sorted(set(targets)):
+            check_case(acc, a5, paths, t, limit)
+    return acc
+
+
 def work_states(task):
     import a5
     batch, limit = task
@@ -136,6 +146,19 @@ def run(tier, t0):
             lists.append(list(combo))
     lists.append([])
     tasks = [(work_lists, (ch, limit)) for ch in common.chunks(lists, 60)]
+    # every list of length 4 (thorough: 5) over one complete sibling group plus two strangers (a coarser and a finer cell elsewhere):
+    # complete groups, groups with swapped / repeated / replaced members, in every order
+    group_tasks = []
+    for parent in ((4, 1, 2), (9, 0, 3, 1, 2), (6, 2) + (1,) * 26, (2, 3)):
+        sib = rm.children(parent)[:4]
+        strangers = [(11, 4, 0), (0, 0) + (2,) * (len(parent) - 1)]
+        glists = [list(c) for c in itertools.product(sib + strangers, repeat=4)]
+        if tier != 'quick':
+            glists += [list(c) for c in itertools.product(sib + strangers[:1], repeat=5)]
+        tmax = min(len(parent) + 1, 29)          # resolution of the siblings + 1
+        group_tasks += [(work_groups, (ch, limit, [tmax - 1, tmax, min(tmax + 1, 29)])) for ch in common.chunks(glists, 200)]
+    acc.n['sibling_group_lists'] = sum(len(t[1][0]) for t in group_tasks)
+    tasks += group_tasks
     # every state of a (smaller) antichain lattice as an input list
     k = 4 if tier == 'quick' else 5
     states = [st for _, st, _ in lattice.bfs([[()]], k, lambda b: 3)]
@@ -149,7 +172,7 @@ def run(tier, t0):
     acc.sample({'list(paths)': [list(MENU[3]), list(MENU[1]), list(MENU[3])], 'target': 4, 'expected_blocks': [64, 320, 64]})
     acc.sample({'list(paths)': [list(MENU[12])], 'target': 27, 'expected': 'ValueError'})
     rule = (f'all lists of length 0..{L} (order and repetition matter) over a 16-cell menu (world, res 0-3, a res 27-29 chain) x every target 0..29 '
-            f'whose output has <= {limit} cells or that must raise; plus every antichain of the E3 lattice (edit depth {k}) in two orders x targets Rmax, Rmax+1; '
+            f'whose output has <= {limit} cells or that must raise; plus every list of length 4 (thorough also 5) over a complete sibling group and two strangers, for groups at resolutions 1, 3, 5 and 28 x targets at, one and two levels below; plus every antichain of the E3 lattice (edit depth {k}) in two orders x targets Rmax, Rmax+1; '
             'for lists of length <= 2 the lists returned by uncompact and by cell_to_children for the same cells are then edited in place and the expansion is repeated; non-trivial = cases that really expand')
     return common.finish(PID, LEVEL, tier, acc, t0, rule, [
         'reference descendants = tuple-path extension (vf/refmodel.py)',
